@@ -39,4 +39,8 @@ def mkEnv (text : String) (lc : List (Nat × Nat × Nat)) : Actions.Env :=
 def modelParse (id text : String) (lc : List (Nat × Nat × Nat)) : Except String FileResult :=
   Lr.addContent tables (mkEnv text lc) id text
 
+/-- ghost flag of the model's run: did error recovery run? (`none`: the run did not end in a result) -/
+def modelRecovered (text : String) (lc : List (Nat × Nat × Nat)) : Bool :=
+  (Lr.parseLoop tables (mkEnv text lc) { input := text.toList } (Lr.parseFuel text)).1.recovered
+
 end Aidl.Driver.Parse
